@@ -4,7 +4,7 @@ import json
 import os
 import subprocess
 
-from contracts import c02_elem, c02_struct
+from contracts import c02_elem, c02_reduce, c02_struct
 from lib.report import REPO, VENV_PY, VERIF, Report, run_bounded
 from pyvc import frontend, solve
 
@@ -66,14 +66,14 @@ def replay_elem(r):
 
 
 STRUCT_PROVED = {"Tensor_Transpose_Property", "Transpose", "MoveAxis", "SwapAxes", "Roll", "Reshape", "Flatten", "Ravel", "Squeeze", "ExpandDims",
-                 "AtLeast1D", "AtLeast2D", "AtLeast3D", "BroadcastTo", "Concatenate", "Stack"}
+                 "AtLeast1D", "AtLeast2D", "AtLeast3D", "BroadcastTo", "Concatenate", "Stack", "Sum", "Mean"}
 
 
 def replay_struct(r):
     meta = r.meta
     if meta.get("kind") == "lemma":
         return None, False, "arithmetic lemma: no input of the library involved"
-    spec = dict(op=meta["op"], rank=meta["rank"], args=meta.get("args", "()"), ones=meta.get("ones", []), model=r.model, mode="forward" if meta.get("kind") in ("forward", "join-forward") else "vjp")
+    spec = dict(op=meta["op"], rank=meta["rank"], args=meta.get("args", "()"), axis=meta.get("axis"), keepdims=meta.get("keepdims"), ones=meta.get("ones", []), model=r.model, mode="forward" if meta.get("kind") in ("forward", "join-forward") else "vjp")
     env = dict(os.environ, PYTHONPATH=os.path.join(REPO, "src") + os.pathsep + VERIF)
     p = subprocess.run([VENV_PY, os.path.join(VERIF, "runtime", "c02_struct_replay.py"), json.dumps(spec, default=str)], capture_output=True, text=True, env=env, timeout=300)
     lines = [l for l in p.stdout.splitlines() if l.startswith("{")]
@@ -100,6 +100,11 @@ def run(tier, seed):
     # rearrangement operations (index-function domain): VJP for symbolic extents / shifts, enumerated ranks and axis arguments
     sobls, sinfo = c02_struct.obligations(tier)
     sobls = [o for o in sobls if not o.name.startswith("C03.")]  # the forward-agrees-with-NumPy obligations belong to C03's check
+    robls, rinfo = c02_reduce.obligations(tier)  # Sum / Mean
+    sobls += robls
+    sinfo["functions"].update(rinfo["functions"])
+    sinfo["unsupported"] += [f"c02_reduce: {u}" for u in rinfo["unsupported"]]
+    sinfo["paths"] += rinfo["paths"]
     rep.add_functions(sinfo["functions"])
     rep.unsupported += [f"c02_struct: {u}" for u in sinfo["unsupported"]]
     sresults = solve.discharge(sobls, timeout_ms=20000 if tier == "quick" else 60000, cross_check=(tier == "thorough"))
@@ -139,6 +144,8 @@ def run(tier, seed):
         "pointwise abstraction: operands already broadcast to a common shape (broadcast reduction is C01.rb/C01.step)",
         "Sinc: the band 0<|x|<=1e-162, where the code returns 0 for a derivative of magnitude <1e-161, is excluded",
         "bounded part: numeric 4th-order central differences of the op's own forward are the VJP oracle (rel 2e-5)",
+        "Sum / Mean (C02.reduce): np.sum / np.mean are not executed symbolically (shape rule + unknown contents; the real __call__ is obliged to hand data, axis and keepdims "
+        "over unchanged); keepdims is always passed explicitly (True / False) as every wrapper does; ranks 0..3 and all axis arguments enumerated, extents symbolic",
         "rearrangement ops (C02.struct): ranks 0..3 (thorough 0..4) and every axis argument for those ranks are enumerated; extents, roll shifts and "
         "reshape targets are symbolic integers of unbounded value; np.roll(axis=None) and order != 'C' are outside the contract (bounded only)",
         "extraction drops docstrings, annotations, TYPE_CHECKING blocks, message texts",
@@ -146,14 +153,14 @@ def run(tier, seed):
     rep.extra["explanation"] = (
         "Mixed level: %d elementwise/activation VJP+frame+alias obligations discharged deductively by PyVC (symbolic execution of the "
         "real __call__/backward_var ASTs, z3 NRA) for all real inputs; %d obligations on the 16 rearrangement / joining operations (transpose family, roll, "
-        "reshape family, broadcast_to, concatenate, stack) discharged in the index-function domain for symbolic extents; the remaining non-elementwise kernels are checked by a bounded run-time "
+        "reshape family, broadcast_to, concatenate, stack) and on Sum / Mean discharged in the index-function domain for symbolic extents; the remaining non-elementwise kernels are checked by a bounded run-time "
         "VJP contract over an enumerated catalogue (counted separately, never as proved); a complete AST enumeration shows every "
         "Operation subclass falls under one of the two." % (sum(1 for r in results if r.status == "discharged"), sum(1 for r in sresults if r.status == "discharged"))
     )
     rep.extra["paths"] = info["paths"] + sinfo["paths"]
     rep.extra["numpy_models_used"] = sorted(info["models"])[:80]
     if tier == "thorough":
-        rep.run_canaries(['c02_elem', 'c02_struct'])
+        rep.run_canaries(['c02_elem', 'c02_struct', 'c02_reduce'])
     return rep.finish(min_obligations=300)
 
 
